@@ -8,19 +8,19 @@ Open Scope N_scope.
 (* for ANY interceptor function: when it accepts, the inner service is called exactly once,
    with the interceptor's metadata (as is, nothing removed) and extensions and the original
    method, uri, version and body; the caller gets the inner service's answer *)
-Theorem accept_preserves {E B R} (f : interceptor E) (inner : http_request E B -> R) req r' :
+Theorem accept_preserves {E B Err P RB} (f : interceptor E) (inner : http_request E B -> Err + (P * RB)) req r' :
   f (mkReq (from_headers (rq_headers req)) (rq_ext req) tt) = inl r' ->
   intercepted_call f inner req =
     let req' := mkHttpReq (rq_method req) (rq_uri req) (rq_version req)
                           (into_headers (tr_md r')) (tr_ext r') (rq_body req) in
-    ([req'], Val (Wrapped (inner req'))).
+    ([req'], Val (wrap_inner (inner req'))).
 Proof.
   intros H. unfold intercepted_call, request_from_http, request_into_http, request_headers.
   cbn [tr_md tr_ext tr_msg]. rewrite H. reflexivity.
 Qed.
 
 (* every header name, reserved ones included, carries exactly the interceptor's values *)
-Corollary accept_headers_unsanitised {E B R} (f : interceptor E) (inner : http_request E B -> R) req r' :
+Corollary accept_headers_unsanitised {E B Err P RB} (f : interceptor E) (inner : http_request E B -> Err + (P * RB)) req r' :
   f (mkReq (from_headers (rq_headers req)) (rq_ext req) tt) = inl r' ->
   exists req', fst (intercepted_call f inner req) = [req'] /\
     forall k, hm_get_all (rq_headers req') k = hm_get_all (tr_md r') k.
@@ -29,7 +29,7 @@ Proof.
 Qed.
 
 (* what the interceptor left alone arrives as it was sent *)
-Corollary accept_untouched {E B R} (f : interceptor E) (inner : http_request E B -> R) req r' k :
+Corollary accept_untouched {E B Err P RB} (f : interceptor E) (inner : http_request E B -> Err + (P * RB)) req r' k :
   f (mkReq (from_headers (rq_headers req)) (rq_ext req) tt) = inl r' ->
   hm_get_all (tr_md r') k = hm_get_all (rq_headers req) k ->
   exists req', fst (intercepted_call f inner req) = [req'] /\
@@ -42,8 +42,8 @@ Proof.
 Qed.
 
 (* the identity interceptor is invisible *)
-Corollary accept_identity {E B R} (inner : http_request E B -> R) req :
-  intercepted_call (fun r => inl r) inner req = ([req], Val (Wrapped (inner req))).
+Corollary accept_identity {E B Err P RB} (inner : http_request E B -> Err + (P * RB)) req :
+  intercepted_call (fun r => inl r) inner req = ([req], Val (wrap_inner (inner req))).
 Proof. destruct req. reflexivity. Qed.
 
 (* ------------------------------------------------------------------ reject *)
@@ -108,11 +108,11 @@ Qed.
    and the answer is HTTP 200 (default version) whose headers are Status::add_header of exactly
    [st] onto {content-type: application/grpc}: one content-type, one grpc-status, the
    percent-encoded message and base64 details when non-empty, the sanitised status metadata *)
-Theorem reject_vetoes {E B R} (f : interceptor E) (inner : http_request E B -> R) req st :
+Theorem reject_vetoes {E B Err P RB} (f : interceptor E) (inner : http_request E B -> Err + (P * RB)) req st :
   f (mkReq (from_headers (rq_headers req)) (rq_ext req) tt) = inr st ->
   well_formed st ->
   exists h cv,
-    intercepted_call f inner req = ([], Val (FromStatus HTTP_200 HTTP_11 h)) /\
+    intercepted_call f inner req = ([], Val (inr (HStatus HTTP_200 HTTP_11 h, RbEmpty))) /\
     add_header st ct_only = Some h /\ code_to_hv (st_code st) = Some cv /\
     hm_get_all h hdr_content_type = [val_app_grpc] /\
     hm_get_all h hdr_grpc_status = [cv] /\
@@ -152,12 +152,12 @@ Qed.
 (* ... and a caller that reads those headers with Status::from_header_map recovers precisely
    that status: code, message, details and (name by name) its metadata minus the reserved
    names; the only other entry it sees is the content-type tonic wrote *)
-Theorem reject_status_recovered {E B R} (f : interceptor E) (inner : http_request E B -> R) req st :
+Theorem reject_status_recovered {E B Err P RB} (f : interceptor E) (inner : http_request E B -> Err + (P * RB)) req st :
   f (mkReq (from_headers (rq_headers req)) (rq_ext req) tt) = inr st ->
   well_formed st -> utf8_valid (st_msg st) = true ->
   hm_get_all (st_md st) hdr_grpc_status_details = [] ->
   exists h st',
-    intercepted_call f inner req = ([], Val (FromStatus HTTP_200 HTTP_11 h)) /\
+    intercepted_call f inner req = ([], Val (inr (HStatus HTTP_200 HTTP_11 h, RbEmpty))) /\
     from_header_map h = Some st' /\
     st_code st' = st_code st /\ st_msg st' = st_msg st /\ st_details st' = st_details st /\
     forall k, hm_get_all (st_md st') k =
@@ -180,6 +180,19 @@ Proof.
     + apply bytes_eqb_eq in K4. subst k. now rewrite get_all_sanitize.
     + now destruct (hm_get_all (sanitize (st_md st)) k).
 Qed.
+
+(* the body of a rejected call: no frame at all, already at end of stream, exact size 0 -
+   whatever the inner body type and its functions are *)
+Theorem reject_body_empty {RB F} (fr : RB -> list F) (en : RB -> bool) (sz : RB -> option N) :
+  rb_frames fr (@RbEmpty RB) = [] /\ rb_is_end_stream en (@RbEmpty RB) = true /\
+  rb_size_exact sz (@RbEmpty RB) = Some 0.
+Proof. repeat split. Qed.
+
+(* an accepted call's body is the inner body, frame by frame (data and trailers alike) *)
+Theorem accept_body_wrapped {RB F} (fr : RB -> list F) (en : RB -> bool) (sz : RB -> option N) b :
+  rb_frames fr (RbWrap b) = fr b /\ rb_is_end_stream en (RbWrap b) = en b /\
+  rb_size_exact sz (RbWrap b) = sz b.
+Proof. repeat split. Qed.
 
 (* the scripted interceptors of the harness are instances of the quantified function *)
 Lemma interceptor_of_accepts {E} (a : action E) r :
